@@ -3,6 +3,7 @@
 package osm
 
 import (
+	"encoding/json"
 	"errors"
 	"time"
 )
@@ -96,13 +97,19 @@ func VerifH_C05_unmarshal() {
 	CustomJSONUnmarshaler = c
 	defer func() { CustomJSONUnmarshaler = nil }()
 	wantVersion := ""
-	switch vRange("version", 0, 2) {
+	switch vRange("version", 0, 4) {
 	case 1:
 		c.top.Version = "0.6"
 		wantVersion = "0.6"
 	case 2:
 		c.top.Version = float64(0.6)
 		wantVersion = "0.6"
+	case 3: // a codec configured to keep numbers as text (json.Number / UseNumber)
+		c.top.Version = json.Number("0.6")
+		wantVersion = "0.6"
+	case 4: // a codec that decodes integral numbers as integers
+		c.top.Version = int64(1)
+		wantVersion = "1"
 	}
 	if vRange("header", 0, 1) == 1 {
 		c.top.Generator, c.top.Copyright, c.top.Attribution, c.top.License = "g", "c", "a", "l"
